@@ -150,3 +150,26 @@ func (g *GRec) UUID() string        { return g.uuid }
 func (g *GRec) Initialize(u string) { g.uuid = u }
 func (g *GRec) Transform()          {}
 func (g *GRec) Validate() error     { return nil }
+
+// Types whose names exercise the snake-case rule of LowercaseNames (acronyms,
+// digits after capitals, digits before lower case): used by the cross-version
+// scenario, where the pinned release and the current code must agree on the
+// directory name of each.
+type nameBase struct {
+	uuid string
+	N    int `sod:"index"`
+}
+
+func (g *nameBase) UUID() string        { return g.uuid }
+func (g *nameBase) Initialize(u string) { g.uuid = u }
+func (g *nameBase) Transform()          {}
+func (g *nameBase) Validate() error     { return nil }
+
+type MD5Sum struct{ nameBase }
+type HTTP2Conn struct{ nameBase }
+type X509Cert struct{ nameBase }
+type Int32x4 struct{ nameBase }
+type ABCDef struct{ nameBase }
+type SHA256 struct{ nameBase }
+type A1b2C3 struct{ nameBase }
+type IOReader9 struct{ nameBase }
